@@ -418,6 +418,11 @@ class SpecMixin:
         if name == 'freshobj':     # the array was allocated by this call
             x = self.sev(env, args[0])
             return z3.BoolVal(bool(getattr(x, 'isfresh', False)))
+        if name == 'newobj':       # newobj(p): the object p points to was allocated during the call
+            x = self.sev(env, args[0])
+            if isinstance(x, IfaceV) and isinstance(getattr(x, 'concrete', None), PtrV): x = x.concrete
+            base = env.old if env.old is not None else env.st
+            return x.ref >= self.cur_top(base)
         if name == 'sameobj':
             x, y = self.sev(env, args[0]), self.sev(env, args[1])
             return getattr(x, 'ident', None) == getattr(y, 'ident', None) if hasattr(x, 'ident') else z3.BoolVal(x is y)
